@@ -370,3 +370,176 @@ loop:
 	}
 	return nil
 }
+
+// c05AnswerThenEnd: the response to a request arrives and right behind it the session ends (the server
+// finishes it, fails it, or drops the connection), while the requester has not got control back from
+// its Send yet. The response was received and matched: the call completes with it, not with an error
+// about the receiver or the session, whatever happens to the session afterwards.
+func c05AnswerThenEnd(e *Env, how string, route string) error {
+	e.Rep.Eval()
+	e.Rep.Count("answer-then-end " + how + " route=" + route)
+	info := map[string]interface{}{"family": "answer-then-end", "how": how, "route": route}
+	lost := 0
+	rounds := 12
+	for round := 0; round < rounds; round++ {
+		var ct, st lime.Transport
+		if route == "pipe" {
+			ct, st = pair.Pipe(nil)
+		} else {
+			var err error
+			ct, st, err = pair.InProc(8)
+			if err != nil {
+				return err
+			}
+		}
+		release := make(chan struct{})
+		var armed int32
+		wt := &pair.WrapT{Transport: ct}
+		wt.AfterSend = func() {
+			if atomic.LoadInt32(&armed) == 1 {
+				<-release // the request is out; its sender gets control back only when told
+			}
+		}
+		cc, sc, err := pair.Established(wt, st, 4, fmt.Sprintf("ate-%s-%d", how, round), lime.Node{Identity: lime.Identity{Name: "u", Domain: "d"}, Instance: "i"})
+		if err != nil {
+			return fmt.Errorf("harness: %v", err)
+		}
+		atomic.StoreInt32(&armed, 1)
+		type res struct {
+			r   *lime.ResponseCommand
+			err error
+		}
+		done := make(chan res, 1)
+		go func() {
+			req := &lime.RequestCommand{}
+			req.ID = fmt.Sprintf("ate-%d", round)
+			req.Method = lime.CommandMethodGet
+			req.SetURIString("/x")
+			ctx, cancel := context.WithTimeout(context.Background(), 30*time.Second)
+			defer cancel()
+			r, err := cc.ProcessCommand(ctx, req)
+			done <- res{r, err}
+		}()
+		// the server answers and ends the session at once
+		sctx, scancel := context.WithTimeout(context.Background(), 3*time.Second)
+		select {
+		case req := <-sc.ReqCmdChan():
+			_ = sc.SendResponseCommand(sctx, req.SuccessResponse())
+		case <-sctx.Done():
+			scancel()
+			close(release)
+			return fmt.Errorf("harness: the request did not reach the server")
+		}
+		// (ending a session on the server side may wait for the server's own receiver to notice: not waited for)
+		go func() {
+			defer scancel()
+			switch how {
+			case "finish":
+				_ = sc.FinishSession(sctx)
+			case "fail":
+				_ = sc.FailSession(sctx, &lime.Reason{Code: 1, Description: "scripted"})
+			default:
+				_ = st.Close()
+			}
+		}()
+		// the client's receiver has taken both by now: wait until it is gone, then let the requester go on
+		select {
+		case <-cc.RcvDone():
+		case <-time.After(8 * time.Second):
+		}
+		close(release)
+		r := <-done
+		if r.err != nil || r.r == nil || r.r.ID != fmt.Sprintf("ate-%d", round) {
+			lost++
+			info["error"] = fmt.Sprint(r.err)
+		}
+		go func() { _ = ct.Close(); _ = st.Close() }()
+	}
+	if lost > 0 {
+		e.Rep.Violate("impl", "c05-lost", fmt.Sprintf("answer-then-end (%s, %s): in %d of %d rounds the response had arrived and been matched before the session ended, and the call still returned an error: %v", how, route, lost, rounds, info["error"]), info)
+	} else {
+		e.Rep.Nontrivial("answer-then-end " + how + route)
+	}
+	return nil
+}
+
+// c05SimilarIDs: identifiers are compared exactly. Requests whose ids differ only in letter case are
+// different requests: both are accepted, each gets the response bearing its own id, and a response whose
+// id differs in case from every pending one matches nothing and goes to the stream.
+func c05SimilarIDs(e *Env, route string) error {
+	e.Rep.Eval()
+	e.Rep.Count("similar-ids route=" + route)
+	info := map[string]interface{}{"family": "similar-ids", "route": route}
+	var ct, st lime.Transport
+	if route == "pipe" {
+		ct, st = pair.Pipe(nil)
+	} else {
+		var err error
+		ct, st, err = pair.InProc(8)
+		if err != nil {
+			return err
+		}
+	}
+	cc, sc, err := pair.Established(ct, st, 8, "similar-"+route, lime.Node{Identity: lime.Identity{Name: "u", Domain: "d"}, Instance: "i"})
+	if err != nil {
+		return fmt.Errorf("harness: %v", err)
+	}
+	defer func() { go func() { _ = ct.Close(); _ = st.Close() }() }()
+	ids := []string{"Cmd-A1", "cmd-a1", "CMD-A1"}
+	type res struct {
+		id  string
+		r   *lime.ResponseCommand
+		err error
+	}
+	out := make(chan res, len(ids))
+	for _, id := range ids {
+		go func(id string) {
+			req := &lime.RequestCommand{}
+			req.ID = id
+			req.Method = lime.CommandMethodGet
+			req.SetURIString("/x")
+			ctx, cancel := context.WithTimeout(context.Background(), 3*time.Second)
+			defer cancel()
+			r, err := cc.ProcessCommand(ctx, req)
+			out <- res{id, r, err}
+		}(id)
+	}
+	// the server collects the three requests, sends a response that matches none of them (another case
+	// variant), then answers them in reverse order
+	got := []*lime.RequestCommand{}
+	sctx, scancel := context.WithTimeout(context.Background(), 5*time.Second)
+	defer scancel()
+	for len(got) < len(ids) {
+		select {
+		case r := <-sc.ReqCmdChan():
+			got = append(got, r)
+		case <-sctx.Done():
+			e.Rep.Violate("impl", "c05-duplicate-id", fmt.Sprintf("similar-ids (%s): of three requests whose ids differ only in letter case %d reached the server; the others were not accepted", route, len(got)), info)
+			return nil
+		}
+	}
+	stray := &lime.ResponseCommand{Status: lime.CommandStatusSuccess}
+	stray.ID = "cMd-a1"
+	stray.Method = lime.CommandMethodGet
+	_ = sc.SendResponseCommand(sctx, stray)
+	for i := len(got) - 1; i >= 0; i-- {
+		_ = sc.SendResponseCommand(sctx, got[i].SuccessResponse())
+	}
+	for range ids {
+		r := <-out
+		if r.err != nil || r.r == nil || r.r.ID != r.id {
+			e.Rep.Violate("impl", "c05-foreign-response", fmt.Sprintf("similar-ids (%s): the call for id %q returned %v, %v", route, r.id, r.r, r.err), info)
+			return nil
+		}
+	}
+	select {
+	case r := <-cc.RespCmdChan():
+		if r.ID != "cMd-a1" {
+			e.Rep.Violate("impl", "c05-stream", fmt.Sprintf("similar-ids (%s): the stream surfaced %q, the unmatched response was cMd-a1", route, r.ID), info)
+		}
+	case <-time.After(2 * time.Second):
+		e.Rep.Violate("impl", "c05-unmatched-lost", fmt.Sprintf("similar-ids (%s): the response cMd-a1 matches no pending request exactly and was not surfaced on the stream", route), info)
+	}
+	e.Rep.Nontrivial("similar-ids " + route)
+	return nil
+}
